@@ -34,6 +34,14 @@ def deleg_case(rng, gpg: bool):
         signed = gen.delegating_md(role if role in ("root", "key_mgr") else "key_mgr", own)
     else:
         signed = gen.delegating_md(rng.choice(["root", "key_mgr"]), own)
+    if isinstance(signed, dict) and "delegations" in signed and rng.random() < 0.3:
+        # a payload that resembles delegating metadata without being it (one member outside its grammar, missing, of another kind): an arbitrary JSON
+        # payload like any other — signed for the role it is accepted, whatever the resemblance (and whatever type it declares)
+        muts = [m_ for m_, lab in mdgen.mutations(rng, gen.envelope(signed), per_path=1, max_total=60) if isinstance(m_, dict) and lab.split(":")[1].startswith("signed.")]
+        if muts:
+            cand = rng.choice(muts).get("signed")
+            if not schema.o_signed_part(cand):
+                signed = cand
     if isinstance(signed, dict) and "metadata_spec_version" in signed and rng.random() < 0.3:
         signed["metadata_spec_version"] = rng.choice(["0.1.0", "1.0.0", "2.0.0", "17.3.9", "x", ""])       # any string; acceptance does not depend on it
     u = gen.envelope(signed)
